@@ -147,6 +147,7 @@ def run(ctx):
             todo.append((S, T, rel, None))
         terms, meta, early = [], [], []
         for S, T, rel, vs in todo:
+            S, T = c20.canon(S), c20.canon(T)
             pS, pT = t_py(S), t_py(T)
             o_st = observe(lambda: TypeParser(pT).check_type(pS))
             st = "(Ok tt)" if o_st[0] == "ok" else ("(Err ETypeError)" if o_st[1] == "T" else "(Err EOther)")
@@ -242,7 +243,7 @@ def replay(ctx, payload):
     c = payload["case"]
     world = World()
     try:
-        S, T = t_norm(c["S"]), t_norm(c["T"])
+        S, T = c20.canon(t_norm(c["S"])), c20.canon(t_norm(c["T"]))
         print("S:", t_str(S), "   T:", t_str(T))
         o = observe(lambda: TypeParser(t_py(T)).check_type(t_py(S)))
         print("implementation TypeParser(T).check_type(S):", "accepted" if o[0] == "ok" else "raises " + o[2][:200])
